@@ -101,7 +101,7 @@ func c14Plans(tier string) []core.Trace {
 // Caller-side cancellation (random runs only; planned scripts use mode 0): 0-3 the context is
 // never cancelled; 4 it is cancelled while the first commit request is in flight; 5 while the
 // second attempt's workspace is being created; 6 during the first manifest write.
-const c14CancelModes = 7
+const c14CancelModes = 9 // 7, 8: two version-control back ends (runC14Multi)
 
 type c14Script struct {
 	cancelMode int
@@ -187,6 +187,10 @@ func manifestPaths(raw []byte) (map[string]string, error) {
 
 func runC14(r *core.Run) {
 	cancelMode := r.Intn(c14CancelModes, "cancel")
+	if cancelMode >= 7 {
+		runC14Multi(r)
+		return
+	}
 	budget := c14Budgets[r.Intn(len(c14Budgets), "budget")]
 	a := worlda.NewAuthority(r, worlda.Config{KM: "memkm", CA: "memca"}, seams.NewPlanNone(r))
 	if err, _ := a.Bootstrap(worlda.BootArgs{}); err != nil {
@@ -406,4 +410,103 @@ func asVCS(err error, target **seams.VCSError) bool {
 		e = u.Unwrap()
 	}
 	return false
+}
+
+// c14Backend scripts one of several back ends of a submission.
+type c14Backend struct {
+	v        *seams.SimVCS
+	kind     int // 0 undisturbed, 1 permanent failure at call #at of the first attempt, 2 every attempt fails retriably at call #at, 3 one retriable failure then fine
+	at       int
+	attempts int
+	pos      int
+	failed   int
+}
+
+func (b *c14Backend) between(site string, ws int) {
+	if site == "GetChangeOps" {
+		b.attempts++
+		b.pos = 0
+	}
+}
+
+func (b *c14Backend) decide(site string, ws int) seams.Decision {
+	p := b.pos
+	b.pos++
+	if p != b.at {
+		return seams.Decision{}
+	}
+	switch {
+	case b.kind == 1 && b.attempts == 1:
+		b.failed++
+		return seams.Decision{Fail: true, Retriable: false}
+	case b.kind == 2, b.kind == 3 && b.attempts == 1:
+		b.failed++
+		return seams.Decision{Fail: true, Retriable: true}
+	}
+	return seams.Decision{}
+}
+
+// runC14Multi (random runs): one submission to TWO version-control back ends (Context.VCSs), each
+// with its own outcome script. Success is reported exactly when a commit landed on every back
+// end; no back end sees more than retries+1 attempts or more than one commit.
+func runC14Multi(r *core.Run) {
+	budget := c14Budgets[r.Intn(len(c14Budgets), "budget")]
+	a := worlda.NewAuthority(r, worlda.Config{KM: "memkm", CA: "memca"}, seams.NewPlanNone(r))
+	if err, _ := a.Bootstrap(worlda.BootArgs{}); err != nil {
+		r.HarnessErr = "bootstrap: " + err.Error()
+		return
+	}
+	var bs []*c14Backend
+	var list []endorse.VersionControl
+	for i := 0; i < 2; i++ {
+		b := &c14Backend{v: seams.NewSimVCS(r, "/release"), kind: r.Intn(4, "backend-outcome"), at: r.Intn(c14CallsPerAttempt, "backend-fault-call")}
+		b.v.Between, b.v.Decide = b.between, b.decide
+		bs = append(bs, b)
+		list = append(list, b.v)
+	}
+	q := Req{Image: images.Pool()[0], OutDir: "out", Candidate: "c14", SNP: true, LaunchVmsas: 2, ClSpec: 7, Timestamp: a.Now, Retries: budget, SeedVCSs: list}
+	_, err := Endorse(r, a, bs[0].v, q, "")
+	allowed := budget + 1
+	if allowed < 1 {
+		allowed = 1
+	}
+	var desc []string
+	allLanded, fired := true, 0
+	for i, b := range bs {
+		b.v.Between, b.v.Decide = nil, nil
+		landed := 0
+		for _, w := range b.v.Spaces {
+			if w.Committed {
+				landed++
+			}
+		}
+		fired += b.failed
+		desc = append(desc, fmt.Sprintf("backend%d(kind=%d,at=%d): %d attempts, %d landed", i, b.kind, b.at, b.attempts, landed))
+		if b.attempts > allowed {
+			r.Fail("too-many-attempts", "multi-backend", "budget %d: back end %d saw %d attempts, at most %d are allowed", budget, i, b.attempts, allowed)
+		}
+		if landed > 1 {
+			r.Fail("success-misreported", "multi-backend/double-commit", "back end %d received %d commits of one submission", i, landed)
+		}
+		if len(b.v.Results) != landed {
+			r.Fail("result-recorded-≠1", "multi-backend", "back end %d: %d commits landed, Result was called %d times", i, landed, len(b.v.Results))
+		}
+		if landed == 0 {
+			allLanded = false
+		}
+	}
+	where := fmt.Sprintf("budget %d, %s, result %v", budget, strings.Join(desc, "; "), err)
+	r.Eval(r.Fingerprint(), fired > 0)
+	r.Eventf("multi-backend %s", where)
+	if err == nil && !allLanded {
+		r.Fail("success-misreported", "multi-backend", "%s: success was reported although a back end received no commit", where)
+	}
+	if err != nil && allLanded {
+		r.Fail("success-misreported", "multi-backend/failure", "%s: an error was reported although every back end received its commit", where)
+	}
+	r.Probe("two-back-ends")
+	r.State(fmt.Sprintf("multi b=%d k=%d,%d ok=%v", budget, bs[0].kind, bs[1].kind, err == nil))
+	if r.Sample == nil {
+		r.Sample = map[string]any{"budget": budget, "backends": desc, "result": fmt.Sprint(err)}
+	}
 }
